@@ -53,6 +53,25 @@ def maporder_across_processes(c):
 
 
 CONFIG = {
+    "C11": {
+        "profiles": BOTH,
+        "post": [maporder_across_processes],
+        "rule": "one evaluation = one Exec / Inspect of a history compared with the sequential model (or one repeated / threaded execution); distinct non-trivial = distinct histories "
+                "with at least two state-changing operations before an Exec",
+        "floors": {"quick": {"_evaluations": 300000, "execs_compared_with_fresh_context": 100000, "histories/len3": 30000, "repetitions": 5000,
+                             "thread_executions": 100000, "maporder_processes": 2},
+                   "thorough": {"_evaluations": 3000000, "histories/len4": 1500000}},
+        "assumptions": ASSUME_COMMON + [
+            "programs containing now() / timestamp() are excluded (the permitted variation)",
+            "each thread owns its BindContext (the type is !Send) holding equal values and a clone of the context"],
+        "technique": "runtime monitoring of recorded operation histories against a sequential model (name -> source per context, variable -> value per binding set): every Exec is "
+                     "compared with a fresh context built from the model, state snapshots before/after every Exec, repetition in and across processes, 16-thread stress with per-thread logs",
+        "level_text": "Exhaustive: all histories of length <= 3 (quick; length 4 sampled, thorough: all 1.7 M) over a 36-operation alphabet (2 contexts, 2 binding sets, 2 program names, 3 sources "
+                      "of which one references the other program and one is a map macro, 2 variables, 2 values, clones in both directions), plus random histories of length 5..40 over generated "
+                      "programs in 3 contexts / binding sets; each deterministic corpus program repeated 50 times and compared across the 16 worker processes; 16 threads x cloned contexts x "
+                      "300..1000 iterations against the single-threaded reference. Exploration only.",
+        "level_note": "trusts the sequential model (two maps per slot) and serde_json snapshots of stored programs",
+    },
     "C12": {
         "profiles": BOTH,
         "rule": "one evaluation = one execution of an entry program (resolution configuration, graph, chain, loop); distinct non-trivial = distinct program sets / "
